@@ -8,7 +8,9 @@ pids = sys.argv[3].split(",") if len(sys.argv) > 3 else [pid]
 d = os.path.join(ROOT, "seeded", name)
 assert subprocess.run("git -C /repo status --porcelain", shell=True, capture_output=True).stdout.strip() == b"", "/repo not clean"
 if subprocess.run("git -C /repo apply %s/patch.diff" % d, shell=True).returncode != 0:
-    assert subprocess.run("cd /repo && patch -p1 --fuzz=3 --no-backup-if-mismatch < %s/patch.diff" % d, shell=True).returncode == 0, "seed no longer applies"
+    if subprocess.run("cd /repo && patch -p1 --fuzz=3 --no-backup-if-mismatch < %s/patch.diff" % d, shell=True).returncode != 0:
+        subprocess.run("git -C /repo checkout -- . && git -C /repo clean -fdq", shell=True)
+        raise SystemExit("seed no longer applies: " + name)
 out = {}
 try:
     for p in pids:
